@@ -24,6 +24,7 @@ size_t g_str_k;
 #define ROOM(p) (__CPROVER_OBJECT_SIZE(p) - __CPROVER_POINTER_OFFSET(p))
 
 size_t g_last_strlen;	/* ghost: result of the most recent strlen() */
+#ifndef VERIF_NO_STRLEN
 size_t strlen(const char *s)
 {
 	__CPROVER_assert(s != NULL, "strlen: non-NULL argument");
@@ -50,6 +51,7 @@ size_t strlen(const char *s)
 #endif
 	return n;
 }
+#endif /* VERIF_NO_STRLEN */
 
 /* snprintf shim: see prelude.h.  Writes a NUL-terminated, non-empty string
  * (every libjwt format has a literal character) of fewer than size bytes. */
@@ -70,7 +72,9 @@ int verif_snprintf(char *buf, size_t size, const char *fmt)
 	return r;
 }
 
-#ifdef VERIF_STRCPY_ERRBUF
+#ifdef VERIF_NO_STRCPY
+/* strcpy is provided by the unit (stubs/encode_env.c) */
+#elif defined(VERIF_STRCPY_ERRBUF)
 /* strcpy as used by jwt_copy_error(): both arguments are 256-byte error
  * buffers whose last byte is NUL (checked).  The whole destination buffer is
  * havocked (constant size -- a symbolic-size havoc of a struct member costs
